@@ -182,6 +182,10 @@ func strBytes(v value) []value {
 		return out
 	case *symStr:
 		return v.b
+	case *enumStr:
+		// a finite-choice string used where bytes are needed (buffers, mixed concatenation):
+		// its text is not the subject of any check, so it becomes an opaque placeholder
+		return strBytes("\x00enum\x00")
 	}
 	panic(fmt.Sprintf("strBytes: %T", v))
 }
